@@ -3,6 +3,7 @@ import VncModel.Update.CopyOrder
 import VncModel.Update.Defer
 import VncModel.Update.Refine
 import VncModel.Update.RefineEnv
+import VncModel.Update.RefineMulti
 import VncModel.Leaf.EquivUpdate
 /-!
 # C02 — Clients converge to the framebuffer: no lost, stale or spurious updates
@@ -224,6 +225,22 @@ theorem model_idle_converged_env (scr0 : Screen) (fb0 pic0 : Pix → V) (y : Scr
     ∀ p, S y.1 p → y.2.pic p = y.2.fb p :=
   VncModel.Update.Refine.model_idle_converged_env scr0 fb0 pic0 y h hM hC
 
+/-- **1..N simultaneous clients**: draws and copies reach every client's bookkeeping and change the
+one shared framebuffer, requests / SetEncodings / updates are per client, clients connect and
+leave, the pointer and the knobs change in between (`NStep`).  In every reachable state every
+connected client's regions are well-formed and its convergence invariant holds. -/
+theorem clients_converge (scr0 : Screen) (fb0 : Pix → V) (st : NState V)
+    (h : NReach ⟨scr0, fb0, []⟩ st) :
+    ∀ cp ∈ st.cls, WFc cp.1 ∧ Inv (S st.scr) (absS cp.1 st.fb cp.2) :=
+  multi_inv scr0 fb0 st h
+
+/-- … and a client with nothing pending shows exactly the shared framebuffer -/
+theorem clients_idle_converged (scr0 : Screen) (fb0 : Pix → V) (st : NState V)
+    (h : NReach ⟨scr0, fb0, []⟩ st) (cp : Client × (Pix → V)) (hcp : cp ∈ st.cls)
+    (hM : cp.1.M.isEmpty = true) (hC : cp.1.C.isEmpty = true) :
+    ∀ p, S st.scr p → cp.2 p = st.fb p :=
+  multi_idle_converged scr0 fb0 st h cp hcp hM hC
+
 /-! ### Non-vacuity of the refinement theorems -/
 
 /-- a 4×3 screen with a 2×2 cursor, slicing and coalescing switched on -/
@@ -232,6 +249,19 @@ def scrEx : Screen :=
     progSlice := 2, maxRects := 1 }
 
 example : WFc (newClient scrEx) := newClient_wf scrEx
+
+/-- two clients of one screen; the application copies a region while both are connected
+(hypothesis of `clients_converge`) -/
+example (fb pic1 pic2 : Pix → Nat) :
+    ∃ st : NState Nat, NReach ⟨scrEx, fb, []⟩ st ∧ st.cls.length = 2 :=
+  ⟨_, NReach.tail
+        (NReach.tail (NReach.tail (NReach.refl _) (NStep.connect _ pic1)) (NStep.connect _ pic2))
+        (NStep.copy _ (Region.rect 1 1 3 3) 1 1 (rect_wf _ _ _ _) (by
+          intro p hp
+          have := (dset_rect 1 1 3 3 p).mp hp
+          simp only [S, psub, scrEx]
+          omega)),
+   by simp⟩
 
 /-- a history with a pointer move between a request and the update (hypothesis of `model_converges_env`) -/
 example (fb pic : Pix → Nat) :
